@@ -52,6 +52,12 @@ def run(ck):
             if not ck.quick():
                 configs += [("16 workers, shuffled (seed 2)", dict(workers=16), {"PYTHONHASHSEED": "1", "ACCELFORGE_VERIF_SCHEDULE_SEED": "2"}),
                             ("4 workers, warm cache, hash seed 1", dict(workers=4, cache_dir=str(cache)), {"PYTHONHASHSEED": "1"})]
+            if kind == "chain":
+                # a cache directory already used by a run restricted to the first Einsum must not change the full run
+                cache2 = d / "cache2"
+                shutil.rmtree(cache2, ignore_errors=True)
+                run_cfg(dict(base, metrics=metrics, workers=1, cache_dir=str(cache2), einsum_names=["Matmul0"]), {"PYTHONHASHSEED": "0"}, d)
+                configs.append(("1 worker, cache shared with an earlier Matmul0-only run", dict(workers=1, cache_dir=str(cache2)), {"PYTHONHASHSEED": "0"}))
             results = []
             for name, extra, env in configs:
                 cfg = dict(base, metrics=metrics, **extra)
